@@ -111,3 +111,105 @@ def nonconst_conds(p):
         if at and all(a in env for a in at): continue
         out.append(c)
     return out
+
+
+# ------------------------------------------------------------------ clamp regions: branch-style and min/max-style clamps treated alike
+def _witnesses(lo, hi):
+    from fractions import Fraction
+    lo = Fraction(lo); hi = Fraction(hi); d = hi - lo
+    return [('below', [lo - 2 * d, lo - d / 3]), ('at-lo', [lo]), ('inside', [lo + d / 4, lo + 2 * d / 3]), ('at-hi', [hi]), ('above', [hi + d, hi + 5 * d / 2])]
+
+
+def resolve_minmax(r, env):
+    """replace every min/max atom of r whose arguments are numerically determined by env (atom id -> value) by the argument that attains it;
+    other function atoms are rebuilt around resolved arguments. Valid on the whole order region the witness env stands for."""
+    from . import alg
+    from .alg import Rat, C, fn
+    if not isinstance(r, Rat): return r
+    mp = {}
+    for a in r.atoms():
+        kind, name, args = alg._ATOMS[a]
+        if kind != 'fn' or not args: continue
+        nargs = [resolve_minmax(x, env) for x in args]
+        if name in ('min', 'max'):
+            vals = []
+            for x in nargs:
+                try: vals.append(alg.evalf(x, dict(env, __fn__=None)))
+                except Exception: vals = None; break
+            if vals is not None:
+                pick = vals.index(min(vals) if name == 'min' else max(vals))
+                mp[a] = nargs[pick]; continue
+        if any(not (x == y) for x, y in zip(nargs, args)):
+            if name == 'sqrt' and len(nargs) == 1: mp[a] = alg.sqrt(nargs[0])
+            elif name == 'sin' and len(nargs) == 1 and nargs[0].is_zero(): mp[a] = C(0)
+            elif name == 'cos' and len(nargs) == 1 and nargs[0].is_zero(): mp[a] = C(1)
+            else: mp[a] = fn(name, *nargs)
+    return r.subs(mp) if mp else r
+
+
+def region_views(p, fac, lo=0, hi=1):
+    """views of a path over the order regions of the quantity `fac` relative to the constants lo < hi:
+    list of (region, g, fix) where g is the clamped value of fac on that region (C(lo) | fac | C(hi)) and fix(x) rewrites a result
+    expression for that region (min/max atoms resolved; at the two boundary points fac is substituted). None when a condition of the
+    path splits a region (it is not a comparison of fac with lo/hi)."""
+    from .alg import C
+    from .ordeval import CB
+    at = fac.atoms()
+    if len(at) != 1: return None
+    (a,) = at
+    conds = [c for c in cond_leaves(p) if isinstance(c, B) and c.k != 'const' and c.atoms() <= {a}]
+    out = []
+    for reg, ws in _witnesses(lo, hi):
+        oks = []
+        for wv in ws:
+            env = {a: wv, '__fn__': None}
+            try: oks.append(all(CB(c).ev(env) for c in conds))
+            except Exception: return None
+        if all(oks):
+            w0 = ws[0]
+            g = C(lo) if reg in ('below', 'at-lo') else C(hi) if reg in ('above', 'at-hi') else fac
+
+            def fix(x, w0=w0, reg=reg):
+                y = resolve_minmax(x, {a: w0})
+                if reg in ('at-lo', 'at-hi') and hasattr(y, 'subs_deep'): y = y.subs_deep({a: C(w0)})
+                return y
+            out.append((reg, g, fix))
+        elif any(oks): return None
+    return out
+
+
+class ViewPath:
+    """a path restricted to one order region of a clamped quantity (see region_views): results and event terms are rewritten for the region"""
+    def __init__(self, p, reg, g, fix):
+        self.p = p; self.reg = reg; self.g = g; self.fix = fix
+        self.out = p.out; self.panic = p.panic; self.conds = p.conds; self.raw_conds = p.raw_conds; self.events = p.events; self.d = p.d
+
+    def _map(self, v):
+        from .run import Enum, Ptr
+        from .alg import Rat
+        if isinstance(v, list): return [self._map(x) for x in v]
+        if isinstance(v, Enum): return Enum(v.var, [self._map(x) for x in v.fields])
+        if isinstance(v, Rat): return self.fix(v)
+        return v
+
+    @property
+    def ret(self): return self._map(self.p.ret)
+
+    def term(self, tid): return self._map(self.p.term(tid))
+
+    def ev(self, kind): return self.p.ev(kind)
+
+    def mut(self, name): return self._map(self.p.mut(name))
+
+
+def view_paths(res, fac, clamped, lo=0, hi=1):
+    """feasible paths, split into region views when the quantity `fac` is clamped to [lo, hi]; yields (label, ViewPath | None)"""
+    out = []
+    for i, p in enumerate(feasible_paths(res)):
+        if not clamped or p.out != 'ret':
+            out.append(('path%d' % i, ViewPath(p, 'any', fac, lambda x: x))); continue
+        views = region_views(p, fac, lo, hi)
+        if not views:
+            out.append(('path%d' % i, None)); continue
+        for reg, g, fix in views: out.append(('path%d/%s' % (i, reg), ViewPath(p, reg, g, fix)))
+    return out
